@@ -24,6 +24,7 @@ RULE = (
 )
 ASSUMPTIONS = [
     "block D: plug-in events one period earlier / later than the EV's nominal arrival (the property ties plug-in to the event, unplug to the departure)",
+    "block E: six sessions on six unconstrained stations, plug-in events queued in every order of their arrival times",
     "small-scope: <=3 stations, <=4 sessions, arrivals<=3, stays<=4, periods 1/5/7.5 min",
     "reference model: occupant(station,t) = the session with arrival<=t<departure; scheduler alphabets are scripted max-pilot (1- and 3-period schedules), empty script, uncontrolled, FCFS greedy",
     "infeasible scripted schedules legitimately only warn; warnings are not violations",
@@ -122,6 +123,15 @@ def space(tier, seed):
                 continue
             for sk, k in (("max1", 1), ("max3", 2), ("unc", 1), ("max1", None)):
                 items.append({"net": netname, "sessions": ss, "sched": SCHEDS[sk], "sk": sk, "k": k, "period": 1})
+    # ---- block E: six sessions on six stations, arrival times a permutation of a multiset - the plug-in events are
+    # handed to the queue in every order (the heap layout, and the interleaving with the unplugs queued at run time,
+    # differ from order to order; the outcome must not)
+    for arrs in ((1, 2, 3, 4, 5, 6), (1, 1, 2, 3, 3, 4)):
+        for perm in sorted(set(itertools.permutations(arrs))):
+            if not thorough and arrs[1] == 1 and perm[0] != 1:
+                continue
+            ss = [dict(sess("PS-%d" % (i + 1), a, 1 + (i % 2)), sid="ev%d" % i) for i, a in enumerate(perm)]
+            items.append({"net": "N8", "sessions": ss, "sched": SCHEDS["unc"], "sk": "unc", "k": 1, "period": 1})
     return items
 
 
